@@ -33,25 +33,53 @@ theorem fl_set {ts : List Task} {t : Nat} {x x' : Task} {P : Prop}
   · rw [List.getElem?_set_ne (fun e => hut e.symm)] at hy
     exact h u y hy hf
 
+theorem getRecv_set {ts : List Task} {t : Nat} {x x' : Task}
+    (h : ∀ (u : Nat) (y : Task), ts[u]? = some y → y.wait.inGet = true → y.code.isReceiver = true)
+    (hx : ts[t]? = some x) (hgr : x'.wait.inGet = true → x'.code.isReceiver = true) :
+    ∀ (u : Nat) (y : Task), (ts.set t x')[u]? = some y → y.wait.inGet = true → y.code.isReceiver = true := by
+  intro u y hy hf
+  by_cases hut : u = t
+  · subst hut
+    rw [List.getElem?_set_self (getElem?_lt hx)] at hy
+    cases hy
+    exact hgr hf
+  · rw [List.getElem?_set_ne (fun e => hut e.symm)] at hy
+    exact h u y hy hf
+
 /-- a step that rewrites task `t` and possibly the deques / counters, leaving queue and logs alone -/
 theorem sinv_frame {s s' : Sys} {t : Nat} {x x' : Task} (h : SInv s) (hx : s.tasks[t]? = some x)
     (htasks : s'.tasks = s.tasks.set t x') (hq : s'.queue = s.queue) (hpl : s'.putLog = s.putLog)
     (hrl : s'.recvLog = s.recvLog) (hcl : s'.closed = s.closed) (hpc : s'.preClose = s.preClose)
     (hnext : x.code.nextSeq ≤ x'.code.nextSeq)
+    (hgr : x'.wait.inGet = true → x'.code.isReceiver = true)
     (hfl : x'.code.isFlusher = true → mCanc x' = 0 ∧ s.closed = true)
     (hdq : ∀ g u, u ≠ t → u ∈ s.dq g → u ∈ s'.dq g)
     (hself : ∀ g, x'.wait = .blocked g .pending → t ∈ s'.dq g) : SInv s' := by
   refine ⟨by rw [hpl, hrl, hq]; exact h.fifo, ?_, by rw [hpl]; exact h.ord, g1_set h.g1 hx htasks hdq hself,
-    by rw [hcl, hpc]; exact h.preCl, by rw [htasks, hcl]; exact fl_set h.fl hx hfl⟩
+    by rw [hcl, hpc]; exact h.preCl, by rw [htasks]; exact getRecv_set h.getRecv hx hgr,
+    by rw [htasks, hcl]; exact fl_set h.fl hx hfl⟩
   rw [hpl, htasks]
   exact uniq_mono h.uniq (nextAt_set_le hx hnext)
 
 theorem sinv_wake {s : Sys} (g : Bool) (h : SInv s) : SInv (wake g s) := by
   have e := wake_eff g s h.g1
-  refine ⟨by simpa using h.fifo, ?_, by simpa using h.ord, e.g1, by simpa using h.preCl, ?_⟩
+  refine ⟨by simpa using h.fifo, ?_, by simpa using h.ord, e.g1, by simpa using h.preCl, ?_, ?_⟩
   · intro a b hab
     rw [e.next a]
     exact h.uniq a b (by simpa using hab)
+  · intro t y hy hf
+    obtain ⟨hA, hB⟩ := wakeNext_spec g (s.dq g) s.tasks
+    rw [wake_tasks] at hy
+    rcases hB with ⟨h1, _⟩ | ⟨u, z, _, hz, hp, h4, _⟩
+    · rw [h1] at hy; exact h.getRecv t y hy hf
+    · rw [h4] at hy
+      by_cases htu : t = u
+      · subst htu
+        rw [List.getElem?_set_self (getElem?_lt hz)] at hy
+        cases hy
+        exact h.getRecv t z hz (by cases g <;> simp_all [Wait.inGet])
+      · rw [List.getElem?_set_ne (fun e => htu e.symm)] at hy
+        exact h.getRecv t y hy hf
   · intro t y hy hf
     rw [wake_closed]
     obtain ⟨hA, hB⟩ := wakeNext_spec g (s.dq g) s.tasks
@@ -86,7 +114,7 @@ theorem inv_finish {s : Sys} {t : Nat} {x x' : Task} (h : Inv s) (hx : s.tasks[t
   have m1 : mFresh x' = 0 := by simp [mFresh, hw']
   rw [m1] at dF
   constructor
-  · refine sinv_frame h.st hx rfl rfl rfl rfl rfl rfl (by rw [hc']; exact Nat.le_refl _) ?_ ?_ ?_
+  · refine sinv_frame h.st hx rfl rfl rfl rfl rfl rfl (by rw [hc']; exact Nat.le_refl _) (by simp [hw', Wait.inGet]) ?_ ?_ ?_
     · intro hf
       have := h.st.fl t x hx (by rw [← hc']; exact hf)
       simp [mCanc, Wait.isCancelled, hw, hw', hm'] at this ⊢
@@ -119,7 +147,7 @@ theorem inv_close {s : Sys} (h : Inv s) : Inv (doClose s) := by
   have a9 : tsum mCanc (s.tasks ++ [flusherTask]) = tsum mCanc s.tasks := by simp [tsum_append, tsum, mCanc, Wait.isCancelled, flusherTask]
   have hpc := h.st.preCl
   constructor
-  · refine ⟨h.st.fifo, ?_, h.st.ord, ?_, ?_, ?_⟩
+  · refine ⟨h.st.fifo, ?_, h.st.ord, ?_, ?_, ?_, ?_⟩
     · exact uniq_mono h.st.uniq (nextAt_append_le _ _)
     · intro g u y hy hw
       simp only [doClose] at hy
@@ -133,6 +161,15 @@ theorem inv_close {s : Sys} (h : Inv s) : Inv (doClose s) := by
         | succ k => simp [hu] at hy
     · simp only [doClose]
       cases hp : s.preClose <;> simp
+    · intro u y hy hf
+      simp only [doClose] at hy
+      rcases Nat.lt_or_ge u s.tasks.length with hl | hl
+      · rw [List.getElem?_append_left hl] at hy
+        exact h.st.getRecv u y hy hf
+      · rw [List.getElem?_append_right hl] at hy
+        cases hu : u - s.tasks.length with
+        | zero => simp [hu] at hy; subst hy; simp [flusherTask, Wait.inGet] at hf
+        | succ k => simp [hu] at hy
     · intro u y hy hf
       simp only [doClose] at hy ⊢
       rcases Nat.lt_or_ge u s.tasks.length with hl | hl
@@ -175,7 +212,7 @@ theorem inv_block_get {s : Sys} {t : Nat} {x x' : Task} (h : Inv s) (hx : s.task
   clear dP dW
   have hnf : x.code ≠ .flusher none := by intro e; rw [e] at hrc; simp [Code.isReceiver] at hrc
   constructor
-  · refine sinv_frame h.st hx rfl rfl rfl rfl rfl rfl (by rw [hc']; exact Nat.le_refl _) ?_ ?_ ?_
+  · refine sinv_frame h.st hx rfl rfl rfl rfl rfl rfl (by rw [hc']; exact Nat.le_refl _) (by intro _; rw [hc']; exact hrc) ?_ ?_ ?_
     · intro hf; rw [hc'] at hf; cases hcode : x.code <;> simp [hcode, Code.isFlusher, Code.isReceiver] at hf hrc
     · exact mem_dq_append _ _ true t rfl rfl
     · intro g hg; rw [hw'] at hg; cases hg; simp [Sys.dq]
@@ -186,7 +223,9 @@ theorem inv_block_get {s : Sys} {t : Nat} {x x' : Task} (h : Inv s) (hx : s.task
 
 /-- a woken waiter finds the queue empty (getter) / full (putter) again and suspends on a new future -/
 theorem inv_reblock {s : Sys} {t : Nat} {x x' : Task} (g0 : Bool) (h : Inv s) (hx : s.tasks[t]? = some x)
-    (hw : x.wait = .blocked g0 .woken) (hw' : x'.wait = .blocked g0 .pending) (hc' : x'.code = x.code)
+    (hw : x.wait = .blocked g0 .woken) (hw' : x'.wait = .blocked g0 .pending)
+    (hn' : x'.code.nextSeq = x.code.nextSeq) (ho' : owedOf x'.code = owedOf x.code)
+    (hf' : x'.code.isFlusher = x.code.isFlusher) (hr' : x'.code.isReceiver = x.code.isReceiver)
     (hm' : x'.mustCancel = x.mustCancel)
     (hq : if g0 then s.queue = [] else (0 < s.maxsize ∧ s.maxsize ≤ s.queue.length)) :
     Inv ((s.setTask t x').setDq g0 (s.dq g0 ++ [t])) := by
@@ -194,7 +233,8 @@ theorem inv_reblock {s : Sys} {t : Nat} {x x' : Task} (g0 : Bool) (h : Inv s) (h
   have dPt := dP true; have dPf := dP false; have dWt := dW true; have dWf := dW false
   clear dP dW
   constructor
-  · refine sinv_frame h.st hx ?_ ?_ ?_ ?_ ?_ ?_ (by rw [hc']; exact Nat.le_refl _) ?_ ?_ ?_
+  · refine sinv_frame h.st hx ?_ ?_ ?_ ?_ ?_ ?_ (by rw [hn']; exact Nat.le_refl _)
+      (by intro hi; rw [hr']; exact h.st.getRecv t x hx (by cases g0 <;> simp_all [Wait.inGet])) ?_ ?_ ?_
     · cases g0 <;> rfl
     · cases g0 <;> rfl
     · cases g0 <;> rfl
@@ -202,17 +242,17 @@ theorem inv_reblock {s : Sys} {t : Nat} {x x' : Task} (g0 : Bool) (h : Inv s) (h
     · cases g0 <;> rfl
     · cases g0 <;> rfl
     · intro hf
-      have := h.st.fl t x hx (by rw [← hc']; exact hf)
+      have := h.st.fl t x hx (by rw [← hf']; exact hf)
       simp [mCanc, Wait.isCancelled, hw, hw', hm'] at this ⊢
       exact this
     · apply mem_dq_append _ _ g0 t <;> cases g0 <;> rfl
     · intro g hg; rw [hw'] at hg; cases hg; cases g0 <;> simp [Sys.dq, Sys.setDq, Sys.setTask]
   · cases g0
-    · simp [mPend, mWok, mInGet, mOwed, mFresh, mRecvDone, mCanc, Wait.inGet, Wait.isCancelled, hw, hw', hc', hm']
+    · simp [mPend, mWok, mInGet, mOwed, mFresh, mRecvDone, mCanc, Wait.inGet, Wait.isCancelled, hw, hw', ho', hm']
         at dPt dPf dWt dWf dI dO dF dR dC hq
       simp only [Sys.setDq, Bool.false_eq_true, if_false]
       num_close h
-    · simp [mPend, mWok, mInGet, mOwed, mFresh, mRecvDone, mCanc, Wait.inGet, Wait.isCancelled, hw, hw', hc', hm']
+    · simp [mPend, mWok, mInGet, mOwed, mFresh, mRecvDone, mCanc, Wait.inGet, Wait.isCancelled, hw, hw', ho', hm']
         at dPt dPf dWt dWf dI dO dF dR dC hq
       simp only [Sys.setDq, if_true]
       have hq0 : s.queue.length = 0 := by rw [hq]; rfl
@@ -233,7 +273,7 @@ theorem inv_block_put {s : Sys} {t : Nat} {x x' : Task} (h : Inv s) (hx : s.task
   have m1 : mFresh x' = 0 := by simp [mFresh, hw']
   rw [m1, hfr] at dF
   constructor
-  · refine sinv_frame h.st hx rfl rfl rfl rfl rfl rfl (by rw [hn']; exact Nat.le_refl _) ?_ ?_ ?_
+  · refine sinv_frame h.st hx rfl rfl rfl rfl rfl rfl (by rw [hn']; exact Nat.le_refl _) (by simp [hw', Wait.inGet]) ?_ ?_ ?_
     · intro hf
       have := h.st.fl t x hx (by rw [← hf']; exact hf)
       simp [mCanc, Wait.isCancelled, hw, hw', hm'] at this ⊢
@@ -255,7 +295,7 @@ theorem inv_flush_compute {s : Sys} {t : Nat} {x x' : Task} (h : Inv s) (hx : s.
   clear dP dW
   have hcl := (h.st.fl t x hx (by rw [hc]; rfl)).2
   constructor
-  · refine sinv_frame h.st hx rfl rfl rfl rfl rfl rfl (by rw [hc, hc']; exact Nat.le_refl _) ?_ ?_ ?_
+  · refine sinv_frame h.st hx rfl rfl rfl rfl rfl rfl (by rw [hc, hc']; exact Nat.le_refl _) (by simp [hw', Wait.inGet]) ?_ ?_ ?_
     · intro _; exact ⟨by simp [mCanc, Wait.isCancelled, hw', hm'], hcl⟩
     · exact mem_dq_same _ _ rfl rfl
     · intro g hg; rw [hw'] at hg; cases hg
@@ -318,7 +358,7 @@ theorem inv_put {s : Sys} {t : Nat} {x x' : Task} {it : Item} (h : Inv s) (hx : 
   rw [m1, hfr] at dF
   -- the state before the wake-up
   have hs1 : SInv { s.setTask t x' with queue := s.queue ++ [it], unfinished := s.unfinished + 1, putLog := if it.isData then s.putLog ++ [it] else s.putLog } := by
-    refine ⟨?_, ?_, ?_, ?_, h.st.preCl, ?_⟩
+    refine ⟨?_, ?_, ?_, ?_, h.st.preCl, getRecv_set h.st.getRecv hx (by simp [hw', Wait.inGet]), ?_⟩
     · show (if it.isData then s.putLog ++ [it] else s.putLog) = List.map Prod.snd s.recvLog ++ List.filter Item.isData (s.queue ++ [it])
       rw [List.filter_append, h.st.fifo]
       cases it <;> simp [Item.isData, List.filter]
@@ -417,7 +457,7 @@ theorem inv_take {s : Sys} {t : Nat} {x x' : Task} {it : Item} {rest : List Item
     | flush => rw [(hfl rfl).1] at hg; cases hg
     | data a b => rw [(hdt a b rfl).1] at hg; cases hg
   have hs1 : SInv { s.setTask t x' with queue := rest, waiting := if counted then s.waiting - 1 else s.waiting, unfinished := s.unfinished - 1, recvLog := rl' } := by
-    refine ⟨?_, ?_, h.st.ord, ?_, h.st.preCl, ?_⟩
+    refine ⟨?_, ?_, h.st.ord, ?_, h.st.preCl, getRecv_set h.st.getRecv hx (by intro _; rw [hc']; exact hrc), ?_⟩
     · show s.putLog = List.map Prod.snd rl' ++ List.filter Item.isData rest
       rw [h.st.fifo, hq]
       cases it with
@@ -488,7 +528,11 @@ theorem inv_cancel_task {s : Sys} (h : Inv s) (tgt : Nat) (timer : Bool) : Inv (
           · rw [h2] at hg; cases hg
           · rw [h2] at hg; exact h1 g hg
         constructor
-        · refine sinv_frame h.st hy rfl rfl rfl rfl rfl rfl (by rw [hc']; exact Nat.le_refl _) ?_ ?_ ?_
+        · refine sinv_frame h.st hy rfl rfl rfl rfl rfl rfl (by rw [hc']; exact Nat.le_refl _) ?_ ?_ ?_ ?_
+          · intro hi; rw [hc']; apply h.st.getRecv tgt y hy
+            rcases hcase with ⟨g', k1, k2, _⟩ | ⟨_, k2, _⟩
+            · rw [k2] at hi; rw [k1]; cases g' <;> simp_all [Wait.inGet]
+            · rw [k2] at hi; exact hi
           · intro hf'; rw [hc', hf] at hf'; cases hf'
           · exact mem_dq_same _ _ rfl rfl
           · intro g hg; exact absurd hg (hw'np g)
